@@ -40,10 +40,16 @@ import (
 
 const (
 	hA, hB, hM = "a.example", "b.example", "m.example"
-	hCDN, hExt = "cdn.example", "external.example"
+	hCDN       = "cdn.example"
 	hEvil      = "evil.example"
 	repo       = "proj/app"
+	// the external layer host of the sibling topology: another service on registry A's own machine
+	// name, told apart by the port only
+	hExtSibling = hA + ":9000"
 )
+
+// hExt is the external layer host of the world being run (set by newWorld; executions are sequential)
+var hExt = "external.example"
 
 type Cfg struct {
 	Op       string `json:"op"`
@@ -55,6 +61,8 @@ type Cfg struct {
 	// m.example; "upstream" registry A is named a-alias.example (references use that name) and reached
 	// at a.example
 	Alias string `json:"alias,omitempty"`
+	// Sibling: the external layer URLs point at another port of registry A's machine name
+	Sibling bool `json:"sibling,omitempty"`
 }
 
 func (c Cfg) String() string {
@@ -64,6 +72,9 @@ func (c Cfg) String() string {
 	}
 	if c.Alias != "" {
 		s += " alias=" + c.Alias
+	}
+	if c.Sibling {
+		s += " external-host=other-port-of-a"
 	}
 	return s
 }
@@ -401,6 +412,11 @@ func (w *world) serve(req *http.Request, body []byte) (*http.Response, error) {
 
 var g1 = graphs.Build("G1")
 var g9 = graphs.Build("G9")
+var g9s = func() *graphs.Graph {
+	graphs.ExternalHost = hExtSibling
+	defer func() { graphs.ExternalHost = "external.example" }()
+	return graphs.Build("G9")
+}()
 var g13 = graphs.Build("G13")
 
 func newWorld(c *explore.Ctx, cfg Cfg) *world {
@@ -413,6 +429,11 @@ func newWorld(c *explore.Ctx, cfg Cfg) *world {
 		fa.TagPage = 1
 	case "referrers-paged":
 		fa.ReferrersPage = 1
+	}
+	hExt = "external.example"
+	g9 := g9
+	if cfg.Sibling {
+		hExt, g9 = hExtSibling, g9s
 	}
 	a := w.net.AddHost(hA, fa)
 	g1.Load(a.Repo(repo), "v1")
@@ -624,7 +645,7 @@ type replay struct {
 func TestVerifC11(t *testing.T) {
 	rec := ev.New()
 	defer rec.Flush(t)
-	rec.Rule("scenario = operation {ping, manifest get/head/put/delete, blob get through a redirect to a CDN host, blob head/put (single request, streamed with unknown digest, chunked)/mount/delete, tag list (one page, three pages), tag delete, referrers (one page, paged), read through a mirror, cross-registry copy, copy of an image with an external layer URL} x registry alone / with a mirror that has its own credentials and the same content x configuration names equal to the host names / the upstream or the mirror configured under an alias name x auth scheme of the registry {basic, bearer via its token endpoint, bearer with an identity token (POST/refresh flow)} x per-repository auth on/off x TLS configured or not; every host has its own distinctive credentials. " +
+	rec.Rule("scenario = operation {ping, manifest get/head/put/delete, blob get through a redirect to a CDN host, blob head/put (single request, streamed with unknown digest, chunked)/mount/delete, tag list (one page, three pages), tag delete, referrers (one page, paged), read through a mirror, cross-registry copy, copy of an image with an external layer URL (on a host of its own, or on another port of the registry's own machine name)} x registry alone / with a mirror that has its own credentials and the same content x configuration names equal to the host names / the upstream or the mirror configured under an alias name x auth scheme of the registry {basic, bearer via its token endpoint, bearer with an identity token (POST/refresh flow)} x per-repository auth on/off x TLS configured or not; every host has its own distinctive credentials. " +
 		"Per scenario every sequence of at most k deviations (k=2 quick, 3 thorough; 1 for the copies in quick): any host — registry, mirror, token endpoint, redirect target, external layer host — answers 401 at any request position with {Basic, Bearer naming its own endpoint, Bearer naming a foreign host, Bearer naming an http:// realm on itself, two challenges, malformed, none} or drops the connection. " +
 		"Oracle: every URL, header and body received by every host and the client's trace-level log are scanned for every secret (user, password, identity token, issued bearer and refresh tokens) raw, URL-encoded, base64 and as base64(user:pass): a secret of registry Y may appear only at Y and at a token endpoint named by a challenge Y itself sent, never over http to a host configured for TLS, never in the log. distinct_nontrivial = distinct (scenario, deviation list, requests seen)")
 	rec.Assume("credential helpers are replaced by static credentials; TLS is represented by the URL scheme")
@@ -659,6 +680,9 @@ func TestVerifC11(t *testing.T) {
 						continue
 					}
 					items = append(items, Cfg{Op: op, SchemeA: sa, RepoAuth: ra, TLS: tls})
+					if op == "copy-external" {
+						items = append(items, Cfg{Op: op, SchemeA: sa, RepoAuth: ra, TLS: tls, Sibling: true})
+					}
 					if op != "mirror-read" && op != "ping" {
 						items = append(items, Cfg{Op: op, SchemeA: sa, RepoAuth: ra, TLS: tls, Mirror: true})
 					}
